@@ -1,6 +1,6 @@
 CONSTANTS Entries = {"MEM", "ALLOC", "FP", "FILE"} CallerSizes = {0} WSizes = {0} PSizes = {0} GSizes = {0}
   FastAt = 4096 Slack = {0} MaxOps = 0 CarryOver = TRUE SwitchOnOverflow = TRUE
 SPECIFICATION TSpec
-INVARIANTS TypeOK OffsetWithinCapacity MemBounded Conserved ResultFaithful
+INVARIANTS TypeOK OffsetWithinCapacity MemBounded Conserved ResultFaithful AllAccepted
 POSTCONDITION TraceAccepted
 CHECK_DEADLOCK FALSE
